@@ -24,7 +24,12 @@ def utxoResidualSites : List String := [
   "sequence_number_to_entry.get(sequence_number).unwrap()",
   "sequence_number_to_entry.get(parent_sequence_number).unwrap()",
   "sequence_number_to_entry.get(&sequence_number).unwrap()",
-  "inscription count try_into::<i32>().unwrap()",
+  "inscription count try_into::<i32>().unwrap()"]
+
+/-- sites of the pass that are discharged here by local reasoning (no chain invariant): a new
+flotsam implies `id_counter ≥ 1`; lost flotsam is sent to the null outpoint, which is special;
+`assignOutputs` only names existing outputs and the output-entry list has one element per output -/
+def utxoLocalSites : List String := [
   "output_utxo_entries[vout]",
   "division by zero",
   "assert!(Index::is_special_outpoint(satpoint.outpoint))"]
@@ -34,14 +39,18 @@ abbrev U := utxoResidualSites
 theorem utxoResidual_subset : ∀ s ∈ utxoResidualSites, s ∈ residualSites := by
   intro s hs
   simp only [utxoResidualSites, List.mem_cons, List.not_mem_nil, or_false] at hs
-  rcases hs with rfl | rfl | rfl | rfl | rfl | rfl | rfl | rfl | rfl | rfl | rfl | rfl | rfl | rfl | rfl | rfl <;>
+  rcases hs with rfl | rfl | rfl | rfl | rfl | rfl | rfl | rfl | rfl | rfl | rfl | rfl | rfl <;>
     simp [residualSites]
 
-theorem residual_split : ∀ s ∈ residualSites, s ∈ utxoResidualSites ∨ s ∈ runeResidualSites := by
+theorem residual_split : ∀ s ∈ residualSites,
+    s ∈ utxoResidualSites ∨ s ∈ utxoLocalSites ∨ s ∈ runeResidualSites := by
   intro s hs
   simp only [residualSites, List.mem_cons, List.not_mem_nil, or_false] at hs
   rcases hs with rfl | rfl | rfl | rfl | rfl | rfl | rfl | rfl | rfl | rfl | rfl | rfl | rfl | rfl | rfl | rfl | rfl | rfl | rfl <;>
-    simp [utxoResidualSites, runeResidualSites]
+    simp [utxoResidualSites, utxoLocalSites, runeResidualSites]
+
+/-- scan invariant: a new flotsam has been counted -/
+def ScanOk (sc : ScanState) : Prop := sc.floating.any isNew = true → 0 < sc.idCounter
 
 /-! ### inscription updater -/
 
@@ -51,52 +60,59 @@ theorem curseOf_U (st : State) (env : Envelope) (ins : List (Nat × InscriptionI
   repeat' split
   all_goals first | trivial | simp [WithinP, utxoResidualSites]
 
-theorem scanOld_U (st : State) (prev : OutPoint) (base : Nat) (l : List (Nat × Nat)) (sc : ScanState) :
-    Within U (scanOld st prev base l sc) := by
+theorem scanOld_U (st : State) (prev : OutPoint) (base : Nat) (l : List (Nat × Nat)) (sc : ScanState)
+    (hsc : ScanOk sc) : WithinP U ScanOk (scanOld st prev base l sc) := by
   induction l generalizing sc with
-  | nil => simp [scanOld, WithinP]
+  | nil => simpa [scanOld, WithinP] using hsc
   | cons p rest ih =>
     obtain ⟨seq, off⟩ := p
     simp only [scanOld]
     split
     · simp [WithinP, utxoResidualSites]
-    · exact ih _
+    · apply ih
+      intro h
+      apply hsc
+      simpa [List.any_append, isNew] using h
 
 theorem scanNew_U (st : State) (jub : Bool) (txid : Txid) (ii off iv tot : Nat) (envs : List Envelope)
-    (sc : ScanState) : Within U (scanNew st jub txid ii off iv tot envs sc) := by
+    (sc : ScanState) (hsc : ScanOk sc) : WithinP U ScanOk (scanNew st jub txid ii off iv tot envs sc) := by
   induction envs generalizing sc with
-  | nil => simp [scanNew, WithinP]
+  | nil => simpa [scanNew, WithinP, ScanOk] using hsc
   | cons env rest ih =>
     simp only [scanNew]
     split
-    · trivial
+    · simpa [WithinP, ScanOk] using hsc
     · have h := curseOf_U st env sc.inscribed off
       split
       · rename_i heq; exact h.panic_mem heq
       · rename_i heq; exact h.not_err heq
-      · exact ih _
+      · apply ih
+        intro _
+        exact Nat.succ_pos _
 
 theorem scanInputs_U (cfg : Cfg) (st : State) (jub : Bool) (txid : Txid) (height tot : Nat)
-    (l : List (TxIn × UtxoEntry)) (i : Nat) (sc : ScanState) :
-    Within U (scanInputs cfg st jub txid height tot l i sc) := by
+    (l : List (TxIn × UtxoEntry)) (i : Nat) (sc : ScanState) (hsc : ScanOk sc) :
+    WithinP U ScanOk (scanInputs cfg st jub txid height tot l i sc) := by
   induction l generalizing i sc with
-  | nil => simp [scanInputs, WithinP]
+  | nil => simpa [scanInputs, WithinP] using hsc
   | cons p rest ih =>
     obtain ⟨txin, entry⟩ := p
     simp only [scanInputs]
     split
-    · exact ih _ _
-    · have h1 := scanOld_U st txin.prev sc.totalInputValue (sortByKey (·.1) entry.ins) sc
+    · exact ih _ _ hsc
+    · have h1 := scanOld_U st txin.prev sc.totalInputValue (sortByKey (·.1) entry.ins) sc hsc
       split
       · rename_i heq; exact h1.panic_mem heq
       · rename_i heq; exact h1.not_err heq
-      · rename_i sc1 _
+      · rename_i sc1 heq1
+        have hsc1 : ScanOk sc1 := h1.of_ok heq1
         have h2 := scanNew_U st jub txid i sc1.totalInputValue (entry.totalValue cfg) tot sc1.envelopes
-          { sc1 with totalInputValue := sc1.totalInputValue + entry.totalValue cfg }
+          { sc1 with totalInputValue := sc1.totalInputValue + entry.totalValue cfg } hsc1
         split
         · rename_i heq; exact h2.panic_mem heq
         · rename_i heq; exact h2.not_err heq
-        · exact ih _ _
+        · rename_i sc3 heq3
+          exact ih _ _ (h2.of_ok heq3)
 
 theorem calculateSat_U (rs : List (Nat × Nat)) (off io : Nat) : Within U (calculateSat rs off io) := by
   induction rs generalizing off with
@@ -150,36 +166,50 @@ theorem uilStep_U (height time : Nat) (ir : Option (List (Nat × Nat))) (fl : Fl
           · rename_i heq; exact (linkParents_U _ _ _ _ _).not_err heq
           · trivial
 
-theorem uilFinish_U (sp : SatPoint) (tgt : Target) (outs : List UtxoEntry) (r : Bool × Nat × State × InsCtx) :
-    Within U (uilFinish sp tgt outs r) := by
+theorem uilFinish_U (sp : SatPoint) (tgt : Target) (outs : List UtxoEntry) (r : Bool × Nat × State × InsCtx)
+    (hsp : tgt = .null → sp.outpoint.isSpecial = true) (hv : ∀ v, tgt = .output v → v < outs.length) :
+    WithinP U (fun ls' => ls'.outs.length = outs.length) (uilFinish sp tgt outs r) := by
   obtain ⟨unbound, seq, st, ctx⟩ := r
   unfold uilFinish
   simp only []
   repeat' split
-  all_goals first | trivial | simp [WithinP, utxoResidualSites]
+  all_goals first
+    | (simp [WithinP]; done)
+    | (simp [WithinP, utxoResidualSites]; done)
+    | (exfalso; rename_i hh; have := hsp rfl; simp [this] at hh)
+    | (exfalso; rename_i hh; have := hv _ rfl; simp at hh; omega)
 
 theorem uil_U (cfg : Cfg) (height time : Nat) (ir : Option (List (Nat × Nat))) (fl : Flotsam) (sp : SatPoint)
-    (opr : Bool) (tgt : Target) (ls : LocState) :
-    Within U (updateInscriptionLocation cfg height time ir fl sp opr tgt ls) := by
+    (opr : Bool) (tgt : Target) (ls : LocState) (hsp : tgt = .null → sp.outpoint.isSpecial = true)
+    (hv : ∀ v, tgt = .output v → v < ls.outs.length) :
+    WithinP U (fun ls' => ls'.outs.length = ls.outs.length)
+      (updateInscriptionLocation cfg height time ir fl sp opr tgt ls) := by
   rw [uil_eq]
   have h1 := uilStep_U height time ir fl sp opr ls
   split
   · rename_i heq; exact h1.panic_mem heq
   · rename_i heq; exact h1.not_err heq
-  · exact uilFinish_U _ _ _ _
+  · exact uilFinish_U _ _ _ _ hsp hv
 
 theorem applyLocations_U (cfg : Cfg) (height time : Nat) (ir : Option (List (Nat × Nat)))
-    (l : List (SatPoint × Flotsam × Bool)) (ls : LocState) : Within U (applyLocations cfg height time ir l ls) := by
+    (l : List (SatPoint × Flotsam × Bool)) (ls : LocState)
+    (hl : ∀ p ∈ l, p.1.outpoint.vout < ls.outs.length) :
+    WithinP U (fun ls' => ls'.outs.length = ls.outs.length) (applyLocations cfg height time ir l ls) := by
   induction l generalizing ls with
   | nil => simp [applyLocations, WithinP]
   | cons p rest ih =>
     obtain ⟨sp, fl, opr⟩ := p
     simp only [applyLocations]
-    have h1 := uil_U cfg height time ir fl sp opr (.output sp.outpoint.vout) ls
+    have h1 := uil_U cfg height time ir fl sp opr (.output sp.outpoint.vout) ls (fun h => by cases h)
+      (fun v hv => by cases hv; exact hl _ List.mem_cons_self)
     split
     · rename_i heq; exact h1.panic_mem heq
     · rename_i heq; exact h1.not_err heq
-    · exact ih _
+    · rename_i ls' heq
+      have hlen : ls'.outs.length = ls.outs.length := h1.of_ok heq
+      have := ih ls' (fun p hp => by rw [hlen]; exact hl p (List.mem_cons_of_mem _ hp))
+      rw [hlen] at this
+      exact this
 
 theorem applyLost_U (cfg : Cfg) (height time : Nat) (ir : Option (List (Nat × Nat))) (ov : Nat)
     (l : List Flotsam) (ls : LocState) : Within U (applyLost cfg height time ir ov l ls) := by
@@ -187,11 +217,31 @@ theorem applyLost_U (cfg : Cfg) (height time : Nat) (ir : Option (List (Nat × N
   | nil => simp [applyLost, WithinP]
   | cons fl rest ih =>
     simp only [applyLost]
-    have h1 := uil_U cfg height time ir fl ⟨OutPoint.null, ls.ctx.lostSats + fl.offset - ov⟩ false .null ls
+    have h1 := uil_U cfg height time ir fl ⟨OutPoint.null, ls.ctx.lostSats + fl.offset - ov⟩ false .null ls (fun _ => rfl)
+      (fun v hv => by cases hv)
     split
     · rename_i heq; exact h1.panic_mem heq
     · rename_i heq; exact h1.not_err heq
     · exact ih _
+
+/-- `assignOutputs` only produces satpoints on existing outputs -/
+theorem assignOutputs_vout (txid : Txid) (outs : List TxOut) (vout ov : Nat) (fls : List Flotsam)
+    (acc : List (SatPoint × Flotsam × Bool)) (n : Nat) (hn : vout + outs.length = n)
+    (hacc : ∀ p ∈ acc, p.1.outpoint.vout < n) :
+    ∀ p ∈ (assignOutputs txid outs vout ov fls acc).1, p.1.outpoint.vout < n := by
+  induction outs generalizing vout ov fls acc with
+  | nil => simpa [assignOutputs] using hacc
+  | cons o os ih =>
+    simp only [assignOutputs]
+    apply ih
+    · simp only [List.length_cons] at hn; omega
+    · intro p hp
+      simp only [List.mem_append, List.mem_map] at hp
+      rcases hp with hp | ⟨f, _, rfl⟩
+      · exact hacc p hp
+      · simp only [List.length_cons] at hn
+        show vout < n
+        omega
 
 theorem iiFinish_U (cfg : Cfg) (height time : Nat) (ir : Option (List (Nat × Nat))) (isCb : Bool)
     (totalIn ov : Nat) (rest : List Flotsam) (ls2 : LocState) :
@@ -210,21 +260,34 @@ theorem iiFinish_U (cfg : Cfg) (height time : Nat) (ir : Option (List (Nat × Na
     · trivial
 
 theorem indexInscriptions_U (cfg : Cfg) (height time : Nat) (tx : Tx) (inputs : List (TxIn × UtxoEntry))
-    (ir : Option (List (Nat × Nat))) (ls : LocState) :
+    (ir : Option (List (Nat × Nat))) (ls : LocState) (hlen : ls.outs.length = tx.outputs.length) :
     Within U (indexInscriptions cfg height time tx inputs ir ls) := by
   rw [indexInscriptions_eq]
   have h1 := scanInputs_U cfg ls.st (decide (height ≥ cfg.jubileeHeight)) tx.txid height
     (tx.outputs.foldl (fun a o => a + o.value) 0) inputs 0 { envelopes := tx.envelopes }
+    (by intro h; simp at h)
   split
   · rename_i heq; exact h1.panic_mem heq
   · rename_i heq; exact h1.not_err heq
-  · split
+  · rename_i sc hsceq
+    have hsc : ScanOk sc := h1.of_ok hsceq
+    split
     · simp [WithinP, utxoResidualSites]
     · split
-      · simp [WithinP, utxoResidualSites]
+      · rename_i hz
+        exfalso
+        have := hsc hz.1
+        omega
       · split
-        rename_i locs rest ov _
-        have h2 := applyLocations_U cfg height time ir locs (iiStart cfg tx ls)
+        rename_i locs rest ov hassign
+        have hlocs : ∀ p ∈ locs, p.1.outpoint.vout < (iiStart cfg tx ls).outs.length := by
+          have := assignOutputs_vout tx.txid tx.outputs 0 0 (iiSorted tx sc ls.ctx.flotsam) [] tx.outputs.length
+            (by simp) (fun p hp => by cases hp)
+          rw [hassign] at this
+          intro p hp
+          have h3 := this p hp
+          simpa [iiStart, hlen] using h3
+        have h2 := applyLocations_U cfg height time ir locs (iiStart cfg tx ls) hlocs
         split
         · rename_i heq; exact h2.panic_mem heq
         · rename_i heq; exact h2.not_err heq
@@ -241,18 +304,34 @@ theorem takeInputEntries_U (cfg : Cfg) (ins : List TxIn) (bc : BlockCtx) (acc : 
     repeat' split
     all_goals first | exact ih _ _ | simp [WithinP, utxoResidualSites]
 
+theorem indexTransactionSatsAux_length (values : List Nat) (vout : Nat) (q : List (Nat × Nat)) (t : TxSats)
+    (h : indexTransactionSatsAux values vout q = some t) : t.outputs.length = values.length := by
+  induction values generalizing vout q t with
+  | nil => simp only [indexTransactionSatsAux, Option.some.injEq] at h; subst h; rfl
+  | cons v vs ih =>
+    simp only [indexTransactionSatsAux] at h
+    split at h
+    · cases h
+    · split at h
+      · cases h
+      · rename_i t' ht'
+        simp only [Option.some.injEq] at h
+        subst h
+        simp [ih _ _ _ ht']
+
 theorem indexTxMid_U (cfg : Cfg) (blk : Block) (insOn : Bool) (txOffset : Nat) (tx : Tx) (bc1 : BlockCtx)
     (inputs : List (TxIn × UtxoEntry)) : Within U (indexTxMid cfg blk insOn txOffset tx bc1 inputs) := by
   have tail : ∀ (bc2 : BlockCtx) (outs2 : List UtxoEntry) (inRanges : Option (List (Nat × Nat))),
+      outs2.length = tx.outputs.length →
       Within U (if insOn = true then
         match indexInscriptions cfg blk.height blk.time tx inputs inRanges { st := bc2.st, ctx := bc2.ins, outs := outs2 } with
         | .panic s => (.panic s : Outcome (BlockCtx × List UtxoEntry))
         | .err e => .err e
         | .ok ls => .ok ({ bc2 with st := ls.st, ins := ls.ctx }, ls.outs)
       else .ok (bc2, outs2)) := by
-    intro bc2 outs2 inRanges
+    intro bc2 outs2 inRanges hlen2
     split
-    · have h := indexInscriptions_U cfg blk.height blk.time tx inputs inRanges { st := bc2.st, ctx := bc2.ins, outs := outs2 }
+    · have h := indexInscriptions_U cfg blk.height blk.time tx inputs inRanges { st := bc2.st, ctx := bc2.ins, outs := outs2 } hlen2
       split
       · rename_i heq; exact h.panic_mem heq
       · rename_i heq; exact h.not_err heq
@@ -263,7 +342,8 @@ theorem indexTxMid_U (cfg : Cfg) (blk : Block) (insOn : Bool) (txOffset : Nat) (
   cases hS : cfg.indexSats with
   | false =>
     simp only [Bool.false_eq_true, if_false]
-    exact tail _ _ _
+    apply tail
+    split <;> simp
   | true =>
     simp only [if_true]
     cases hits : indexTransactionSats (tx.outputs.map (·.value))
@@ -271,7 +351,11 @@ theorem indexTxMid_U (cfg : Cfg) (blk : Block) (insOn : Bool) (txOffset : Nat) (
     | none => simp [WithinP, utxoResidualSites]
     | some r =>
       simp only []
-      exact tail _ _ _
+      apply tail
+      have hr : r.outputs.length = tx.outputs.length := by
+        have := indexTransactionSatsAux_length _ _ _ _ hits
+        simpa using this
+      split <;> simp [hr]
 
 theorem indexTx_U (cfg : Cfg) (blk : Block) (insOn : Bool) (txOffset : Nat) (tx : Tx) (bc : BlockCtx) :
     Within U (indexTx cfg blk insOn txOffset tx bc) := by
